@@ -73,6 +73,8 @@ EpOf(c, s) == IF s = 0 THEN 0 ELSE c + 1
 
 \* 0-RTT: streams a client opened before its handshake completed are discarded when the server rejects early data
 Rejected0(cs) == m.cfg.ticket /\ ~m.cfg.eaccept /\ cs \in m.early
+\* a handle obtained before the rejection stays stale when its number is handed out again
+WasRejected0(cs) == m.cfg.ticket /\ ~m.cfg.eaccept /\ cs \in m.wasEarly
 \* forget everything about the directions of stream sid of connection c (its id is reused after a rejection)
 Purge(f, c, sid) == [x \in {y \in DOMAIN f : ~(y[1] = c /\ y[2] = sid)} |-> f[x]]
 PurgeSet(S, c, sid) == {y \in S : ~(y[1] = c /\ y[2] = sid)}
@@ -94,7 +96,7 @@ Empty == [cfg |-> [lossless |-> TRUE, ordered |-> TRUE, dup |-> FALSE, idle |-> 
           clones |-> <<>>, selfw |-> {}, kinds |-> <<>>, pend |-> <<>>, held |-> <<>>,
           wlo |-> <<>>, whi |-> <<>>, fin |-> {}, rst |-> {}, stp |-> <<>>, cursor |-> <<>>,
           rend |-> {}, rdirty |-> {}, opened |-> <<>>, accepted |-> <<>>, used |-> {},
-          closedBy |-> <<>>, syncClosed |-> {}, lostSeen |-> {}, early |-> {}, sgone |-> {}, finEff |-> {}, lateStop |-> {}, conns |-> {}, epClosed |-> {}, refused |-> {},
+          closedBy |-> <<>>, syncClosed |-> {}, lostSeen |-> {}, early |-> {}, sgone |-> {}, finEff |-> {}, lateStop |-> {}, conns |-> {}, epClosed |-> {}, refused |-> {}, wasEarly |-> {}, earlyT |-> {},
           dsent |-> <<>>, drecv |-> <<>>, phase |-> "run"]
 
 TInit == l = 1 /\ bad = {} /\ cur = <<0>> /\ m = Empty
@@ -195,7 +197,7 @@ OpDone ==
          lost == e.lost
          errflags == IF e.res = "err" /\ lost THEN Flag(Justified(c, s, e.err, e.ecode), "UnjustifiedError")
                      \* ZeroRttRejected: only on a stream opened early, only when the server refused early data
-                     ELSE IF e.res = "err" /\ e.err = "ZeroRttRejected" THEN Flag(Rejected0(<<c, e.sid>>), "UnjustifiedError")
+                     ELSE IF e.res = "err" /\ e.err = "ZeroRttRejected" THEN Flag(WasRejected0(<<c, e.sid>>), "UnjustifiedError")
                      ELSE {}
          zr == e.res = "err" /\ e.err = "ZeroRttRejected"
          m1 == [m EXCEPT !.pend = Del(@, e.task),
@@ -236,6 +238,8 @@ OpDone ==
                     ELSE IF e.res = "ok"
                       THEN [m1 EXCEPT !.opened = Set(@, k, At(@, k, 0) + 1),
                                       !.early = IF e.n = 1 THEN @ \cup {<<c, e.sid>>} ELSE @,
+                                      !.wasEarly = IF e.n = 1 THEN @ \cup {<<c, e.sid>>} ELSE @,
+                                      !.earlyT = IF e.n = 1 THEN @ \cup {e.task} ELSE @,
                                       !.held = Set(@, e.task, At(@, e.task, 0) + (IF e.op = "open_bi" THEN 2 ELSE 1))]
                       ELSE m1
        [] e.op \in AcceptOps ->
@@ -385,7 +389,11 @@ HandleDropped ==
          h == IF isStream /\ e.task >= 0 THEN At(m.held, e.task, 0) - 1 ELSE At(m.held, e.task, 0)
          \* implicit finish (SendStream::drop), implicit stop(0) unless the end was seen (RecvStream::drop),
          \* implicit close(0) when the last handle of a connection goes away (ConnectionRef::drop)
-         m0 == [m EXCEPT !.fin = IF e.kind = "send" /\ dw \notin @ \cup m.rst THEN @ \cup {dw} ELSE @,
+         \* (the handles of a rejected 0-RTT attempt are stale: letting go of them does nothing to the stream
+         \* that may since have been opened under the same number)
+         stale == isStream /\ m.cfg.ticket /\ ~m.cfg.eaccept /\ e.task \in m.earlyT
+         m0 == IF stale THEN [m EXCEPT !.held = IF e.task >= 0 THEN Set(@, e.task, h) ELSE @] ELSE
+               [m EXCEPT !.fin = IF e.kind = "send" /\ dw \notin @ \cup m.rst THEN @ \cup {dw} ELSE @,
                          !.used = IF e.kind = "send" THEN @ \cup {<<c, e.sid>>} ELSE @,
                          !.sgone = IF e.kind = "send" THEN @ \cup {dw} ELSE @,
                          !.stp = IF e.kind = "recv" /\ dr \notin m.rend /\ dr \notin DOMAIN @ THEN Set(@, dr, 0) ELSE @,
